@@ -46,7 +46,7 @@ DrawAlpha == /\ phase = "commit" /\ alphasDrawn < Len(layers)
              /\ alphasDrawn' = alphasDrawn + 1
              /\ UNCHANGED <<phase, f0, layers, remCommitted, remC, hit, queried, openings, remSent, verdict>>
 CommitRemainder(kind) == /\ phase = "commit" /\ Len(layers) = L /\ alphasDrawn = L /\ ~remCommitted
-                         /\ kind \in {"honest", "partial"}
+                         /\ kind \in {"honest", "partial", "missing"}   \* "missing": the prover sends no commitment for the remainder
                          /\ remCommitted' = TRUE /\ remC' = kind
                          /\ UNCHANGED <<phase, f0, layers, alphasDrawn, hit, queried, openings, remSent, verdict>>
 DrawQueries == /\ phase = "commit" /\ remCommitted
@@ -70,19 +70,19 @@ FoldOK    == AllFold                                   \* a junk layer is caught
 \* does the remainder the prover sends agree with the folded last layer at the queried positions?
 RemFoldOK == CASE remSent = "adaptive"  -> TRUE                       \* built to agree there
                [] remSent = "committed" ->                              \* committed before the queries
-                     IF remC = "honest" THEN f0 \in {"low", "high"} /\ AllFold     \* only an honest polynomial run agrees everywhere
+                     IF remC \in {"honest", "missing"} THEN f0 \in {"low", "high"} /\ AllFold     \* only an honest polynomial run agrees everywhere
                      ELSE (~RemFoldAll /\ hit = "first")                           \* partial agreement: some queried position disagrees
                [] remSent = "other"     -> FALSE
-RemCommitOK == remSent = "committed"
+RemCommitOK == remSent = "committed" /\ remC # "missing"   \* without a commitment nothing ties the remainder to the commit phase
 \* the remainder has at most (degree bound + 1) / fold^L coefficients: fails exactly for the honest run of a too-high degree
-RemBoundOK == ~(f0 = "high" /\ remSent = "committed" /\ remC = "honest")
+RemBoundOK == ~(f0 = "high" /\ remSent = "committed" /\ remC \in {"honest", "missing"})
 Verify == /\ phase = "query" /\ remSent # "none" /\ verdict = "none"
           /\ verdict' = IF MerkleOK /\ FoldOK /\ RemFoldOK /\ RemBoundOK /\ (CheckRemCommit => RemCommitOK) THEN "accept" ELSE "reject"
           /\ phase' = "done"
           /\ UNCHANGED <<f0, layers, alphasDrawn, remCommitted, remC, hit, queried, openings, remSent>>
 
 Next == \/ \E kd \in {"fold", "junk"} : CommitLayer(kd)
-        \/ DrawAlpha \/ (\E kd \in {"honest", "partial"} : CommitRemainder(kd)) \/ DrawQueries
+        \/ DrawAlpha \/ (\E kd \in {"honest", "partial", "missing"} : CommitRemainder(kd)) \/ DrawQueries
         \/ \E o \in [1..L -> {"asis", "tampered"}] : SendOpenings(o)
         \/ \E r \in {"committed", "adaptive", "other"} : SendRemainder(r)
         \/ Verify
